@@ -9,6 +9,8 @@ import (
 	"fmt"
 	"net"
 	"os"
+	"strconv"
+	"strings"
 	"sync"
 	"sync/atomic"
 	"testing"
@@ -132,6 +134,7 @@ func (h *udpHandler) OnTraffic(c Conn) Action {
 func runUDPScenario(t *testing.T, rec *recorder, network, host string, loops int, seed uint64, rep *vsup.Report) {
 	rng := vsup.NewRng(seed)
 	rec.emit("Reset", "cfg", fmt.Sprintf("udp %s %s loops=%d", network, host, loops))
+	drops0 := udpKernelDrops()
 	h := &udpHandler{rec: rec, booted: make(chan struct{})}
 	pc, err := net.ListenPacket(network, net.JoinHostPort(host, "0"))
 	if err != nil {
@@ -247,7 +250,7 @@ func runUDPScenario(t *testing.T, rec *recorder, network, host string, loops int
 	time.Sleep(150 * time.Millisecond) // replies in flight
 	atomic.StoreInt64(&h.processed[0], 1)
 	wg.Wait()
-	rec.emit("UQuiesce")
+	rec.emit("UQuiesce", "kdrops", udpKernelDrops()-drops0)
 	_ = h.eng.Stop(contextBG())
 	select {
 	case <-runErr:
@@ -284,4 +287,39 @@ func TestVerifUDP(t *testing.T) {
 	if err := rep.Write(); err != nil {
 		t.Fatal(err)
 	}
+}
+
+// udpKernelDrops: datagrams the kernel itself discarded on reception (receive buffer full, checksum), IPv4 + IPv6,
+// from the network namespace's SNMP counters.  Such datagrams were never received by the listener.
+func udpKernelDrops() int {
+	total := 0
+	if raw, err := os.ReadFile("/proc/net/snmp"); err == nil {
+		var hdr []string
+		for _, line := range strings.Split(string(raw), "\n") {
+			f := strings.Fields(line)
+			if len(f) == 0 || f[0] != "Udp:" {
+				continue
+			}
+			if hdr == nil {
+				hdr = f
+				continue
+			}
+			for i, name := range hdr {
+				if name == "InErrors" && i < len(f) {
+					n, _ := strconv.Atoi(f[i])
+					total += n
+				}
+			}
+		}
+	}
+	if raw, err := os.ReadFile("/proc/net/snmp6"); err == nil {
+		for _, line := range strings.Split(string(raw), "\n") {
+			f := strings.Fields(line)
+			if len(f) == 2 && f[0] == "Udp6InErrors" {
+				n, _ := strconv.Atoi(f[1])
+				total += n
+			}
+		}
+	}
+	return total
 }
